@@ -77,6 +77,9 @@ def work_C14(run, rng, budget):
         for (mode, i, hs), p in procs:
             out, err = p.communicate(timeout=1500)
             if p.returncode != 0:
+                for _, q in procs:
+                    if q.poll() is None:
+                        q.kill()
                 raise RuntimeError(f"C14 worker failed: {err.decode()[-1500:]}")
             obj = json.loads(out.decode().strip().splitlines()[-1])
             dfa.append(obj["dfa_states"])
